@@ -213,6 +213,7 @@ func (s *TypeMuxSubscription) deliver(event *TypeMuxEvent) {
 	// Otherwise deliver the event
 	s.postMu.RLock()
 	defer s.postMu.RUnlock()
+	verifMuxPoint(s.mux, "deliver_begin", s, nil)
 
 	select {
 	case s.postC <- event:
